@@ -131,7 +131,7 @@ def check_call(contract, args, kwargs, tol=None):
         rz = contract.raises(wa)
         conds = []
         for T, cond in rz:
-            ok, _ = S.evaluate(cond)
+            ok, _ = S.evaluate(getattr(cond, "pos", cond))
             conds.append((T, ok))
         c.in_spec -= 1
         import warnings
